@@ -114,6 +114,13 @@ class _ClockDatetime(_dt.datetime):
   def utcnow(cls):
     return _dt.datetime(1970, 1, 1) + _dt.timedelta(seconds=CLOCK[0])
 
+  @classmethod
+  def now(cls, tz=None):
+    # local wall-clock time of a process running 8 hours west of UTC (the service must not depend on the process time zone)
+    if tz is None:
+      return cls.utcnow() - _dt.timedelta(hours=8)
+    return (cls.utcnow().replace(tzinfo=_dt.timezone.utc)).astimezone(tz)
+
 
 class _ClockModule:
   datetime = _ClockDatetime
@@ -126,7 +133,8 @@ def _clock_timestamp():
 
 vizier_service.datetime = _ClockModule
 vizier_service._get_current_time = _clock_timestamp
-STUBS = ['vizier_service.datetime.utcnow / _get_current_time read the harness clock svc.CLOCK (constant unless advanced)']
+STUBS = ['vizier_service.datetime.utcnow / _get_current_time read the harness clock svc.CLOCK (constant unless advanced); '
+         'datetime.now() = local time of a process 8 h west of UTC']
 
 
 def new_servicer(pythia=None, database_url=None, recycle_s=60):
